@@ -128,9 +128,16 @@ func preflight(r *core.RNG, tier string) {
 
 func (prop) Extra(_ *core.RNG, tier string, _ string) (violations []string, notes []string, stats map[string]any) {
 	if !preDone {
-		return nil, preNotes, map[string]any{"exhaustive": false}
+		return histViol, append(preNotes, histNotes...), map[string]any{"exhaustive": false}
 	}
-	return preViolations, preNotes, preStats
+	st := map[string]any{}
+	for k, v := range preStats {
+		st[k] = v
+	}
+	for k, v := range histStats {
+		st[k] = v
+	}
+	return append(append([]string{}, preViolations...), histViol...), append(append([]string{}, preNotes...), histNotes...), st
 }
 
 func raceRun(r *core.RNG, tier string, scratch string) (violations []string, notes []string, stats map[string]any) {
